@@ -25,22 +25,23 @@ func editSpace(r *explore.Run, seedBase int, body func(c *explore.Ctx, e *Entry,
 // In the thorough tier the full edits are also applied to the seeds with k+1 deviations of the roots that stay small.
 func editSpaceMode(r *explore.Run, seedBase int, mode string, body func(c *explore.Ctx, e *Entry, s string)) {
 	k := seedBase
-	if r.Tier == "thorough" {
-		k++
-	}
 	A := EditAlphabet
 	if mode == "full" || mode == "both" {
 		editSpaceRoots(r, fmt.Sprintf("S5/edits(seeds<=%d)", k), k, grammar.Roots, A, false, 0, body)
 		if r.Tier == "thorough" {
-			bounds := rootBounds(k, 400)
-			var roots []*grammar.Root
-			for _, root := range grammar.Roots {
-				if bounds[root.Name] > k {
-					roots = append(roots, root)
+			// every edit kind on deeper seeds only for the roots that stay small there (the full product over all
+			// roots at k+1 costs ~15 min per check and found nothing the quick tier had not found)
+			bounds := rootBounds(k, 3000)
+			for extra := 1; extra <= 2; extra++ {
+				var roots []*grammar.Root
+				for _, root := range grammar.Roots {
+					if bounds[root.Name] >= k+extra {
+						roots = append(roots, root)
+					}
 				}
-			}
-			if len(roots) > 0 {
-				editSpaceRoots(r, fmt.Sprintf("S5/edits(small roots, seeds=%d)", k+1), k+1, roots, A, false, k+1, body)
+				if len(roots) > 0 {
+					editSpaceRoots(r, fmt.Sprintf("S5/edits(small roots, seeds=%d)", k+extra), k+extra, roots, A, false, k+extra, body)
+				}
 			}
 		}
 	}
